@@ -12,7 +12,7 @@ EXTENDS Machine, TLC, Json
 VARIABLES phase, p, a1, a2
 vars == <<phase, p, a1, a2>>
 
-\* ---- the three pre-states, built by public calls (the harness runs the same ops) ----
+\* ---- the four pre-states, built by public calls (the harness runs the same ops) ----
 PreOps(k) ==
   CASE k = 1 -> <<>>
     [] k = 2 -> << [op |-> "bus_write", a |-> 0, v |-> 17], [op |-> "bus_write", a |-> 239, v |-> 99],
@@ -33,6 +33,10 @@ PreOps(k) ==
                    [op |-> "bus_write", a |-> 100, v |-> 100], [op |-> "bus_write", a |-> 101, v |-> 101],
                    [op |-> "set_input", k |-> 3, v |-> 255], [op |-> "bus_write", a |-> 253, v |-> 66],
                    [op |-> "bus_write", a |-> 252, v |-> 7] >>
+    [] k = 4 -> << [op |-> "bus_write", a |-> 242, v |-> 198],          \* int ctrl: source J1, rising, IE CLEAR
+                   [op |-> "set_j1", v |-> TRUE],                          \* -> SOURCE and flip-flop set in the board's status
+                   [op |-> "bus_write", a |-> 249, v |-> 1], [op |-> "key_int"],
+                   [op |-> "bus_write", a |-> 50, v |-> 50] >>
 Pre(k) == ApplyOps(MachineInit, PreOps(k))
 
 \* ---- the map-based reference -----------------------------------------------------
@@ -87,7 +91,7 @@ Sig(b, a) ==
   << RamSum(b.ram), b.inr[0], b.inr[1], b.inr[2], b.inr[3], b.outr[0], b.outr[1], b.micr, b.misr,
      b.bd.di1, b.bd.do1, b.bd.do2, ReadBack(b, a) >>
 
-Init == phase = "single" /\ p \in 1..3 /\ a1 = 0 /\ a2 = 0
+Init == phase = "single" /\ p \in 1..4 /\ a1 = 0 /\ a2 = 0
 Next == \/ /\ phase = "single" /\ a1 < 255 /\ a1' = a1 + 1 /\ UNCHANGED <<phase, p, a2>>
         \/ /\ phase = "single" /\ a1 = 255 /\ p = 2 /\ phase' = "pair" /\ a1' = 0 /\ a2' = 0 /\ p' = p
         \/ /\ phase = "pair" /\ a2 < 255 /\ a2' = a2 + 1 /\ UNCHANGED <<phase, p, a1>>
@@ -102,6 +106,5 @@ Emit ==
   ELSE PrintT(<<"REPLAY", ToJson([kind |-> "pair", p |-> p, a |-> a1, b |-> a2,
                   row |-> Sig(BusWrite(BusWrite(Pre(p), a1, V1), a2, V2), a1)])>>)
 
-PreJson == ToJson([k \in 1..3 |-> PreOps(k)])
-ASSUME PrintT(<<"REPLAY", ToJson([kind |-> "pre", ops |-> [k \in 1..3 |-> PreOps(k)]])>>)
+ASSUME PrintT(<<"REPLAY", ToJson([kind |-> "pre", ops |-> [k \in 1..4 |-> PreOps(k)]])>>)
 =====================================================================
